@@ -11,6 +11,7 @@ import (
 	"path/filepath"
 	"regexp"
 	"strings"
+	"sync"
 	"syscall"
 	"testing"
 	"time"
@@ -25,6 +26,7 @@ type vfC10Case struct {
 }
 
 type vfC10Res struct {
+	afterChoice time.Duration // ui initiators: from the user's choice at the prompt until both sides had ended
 	fired    bool
 	outcome  string
 	elapsed  time.Duration
@@ -52,7 +54,11 @@ func vfAnswerPrompt(sess *vfSession, from int, keys ...string) bool {
 	return false
 }
 
+// vfHesitation: how long the slow user looks at the stop question before choosing
+const vfHesitation = 2200 * time.Millisecond
+
 func vfC10Run(cs vfC10Case, res *vfC10Res) string {
+	var run0 *vfSessRun
 	sc := cs.Scen
 	e, err := vfScenSetup(sc)
 	if err != nil {
@@ -66,6 +72,15 @@ func vfC10Run(cs vfC10Case, res *vfC10Res) string {
 	}
 	sess := vfNewSession(sc.Sess)
 	defer sess.close()
+	var choiceMu sync.Mutex
+	var choiceAt time.Time
+	defer func() {
+		choiceMu.Lock()
+		if !choiceAt.IsZero() && run0 != nil {
+			res.afterChoice = run0.started.Add(run0.wall).Sub(choiceAt)
+		}
+		choiceMu.Unlock()
+	}()
 	fire := func() {
 		switch cs.Initiator {
 		case "api":
@@ -74,14 +89,28 @@ func vfC10Run(cs vfC10Case, res *vfC10Res) string {
 			sess.signalServer(syscall.SIGINT)
 		case "sigterm":
 			sess.signalServer(syscall.SIGTERM)
-		case "ui":
+		case "ui", "ui_slow":
 			from := sess.termOut.len()
 			go func() {
 				sess.typeInput([]byte{0x03})
+				if cs.Initiator == "ui_slow" {
+					// the user looks at the question for a while before choosing (shorter than the timeout: the tail of a file has no keep-alives)
+					deadline := time.Now().Add(5 * time.Second)
+					for time.Now().Before(deadline) && !bytes.Contains(sess.termOut.bytes()[from:], []byte("Are you sure")) {
+						time.Sleep(5 * time.Millisecond)
+					}
+					time.Sleep(vfHesitation)
+				}
+				asked := false
 				if cs.Delete {
-					vfAnswerPrompt(sess, from, "j", "\r")
+					asked = vfAnswerPrompt(sess, from, "j", "\r")
 				} else {
-					vfAnswerPrompt(sess, from, "\x03")
+					asked = vfAnswerPrompt(sess, from, "\x03")
+				}
+				if asked {
+					choiceMu.Lock()
+					choiceAt = time.Now()
+					choiceMu.Unlock()
 				}
 			}()
 		}
@@ -91,6 +120,7 @@ func vfC10Run(cs vfC10Case, res *vfC10Res) string {
 	if err != nil {
 		return "cannot start: " + err.Error()
 	}
+	run0 = run
 	const bound = 12 * time.Second // T (3 s) + drain constants + generous slack
 	run.finish(45 * time.Second)
 	tk.mu.Lock()
@@ -150,7 +180,7 @@ func vfC10Run(cs vfC10Case, res *vfC10Res) string {
 	}
 	res.outcome = "stopped"
 	res.midway = true
-	if cs.Initiator == "ui" && strings.HasPrefix(run.serverMsg, "Interrupted") && cs.Ev.Dir == "s2c" && cs.Ev.K == 0 && !sc.Sess.Tunnel {
+	if (cs.Initiator == "ui" || cs.Initiator == "ui_slow") && strings.HasPrefix(run.serverMsg, "Interrupted") && cs.Ev.Dir == "s2c" && cs.Ev.K == 0 && !sc.Sess.Tunnel {
 		// the user's Ctrl-C came while the trigger was still on its way through the client: no transfer existed there yet, so the
 		// key went to the remote side like any other key and the server, still waiting for the action, reports the interrupt in
 		// its own word. That is a stop report (nothing has been created yet); the stop / delete question is never asked.
@@ -215,7 +245,11 @@ func TestVF_C10(t *testing.T) {
 			continue
 		}
 		var res vfC10Res
-		if msg := vfGuard(func() string { return vfC10Run(cs, &res) }); msg != "" {
+		msg := vfGuard(func() string { return vfC10Run(cs, &res) })
+		if msg == "" && cs.Initiator == "ui_slow" && res.afterChoice > 0 {
+			msg = vfC10SlowVsFast(cs, res.afterChoice)
+		}
+		if msg != "" {
 			c.violation("regress:"+filepath.Base(f.Path), cs, msg)
 			t.Errorf("case file %s fails: %s", f.Path, msg)
 		}
@@ -238,12 +272,12 @@ func TestVF_C10(t *testing.T) {
 			c.violation("dryrun", sc, msg)
 			t.Fatalf("%s", msg)
 		}
-		for _, initiator := range []string{"api", "ui", "sigint", "sigterm"} {
+		for _, initiator := range []string{"api", "ui", "ui_slow", "sigint", "sigterm"} {
 			for _, del := range []bool{false, true} {
 				if del && (initiator == "sigint" || initiator == "sigterm") {
 					continue
 				}
-				if initiator == "ui" && sc.Cfg.Protocol < 3 {
+				if (initiator == "ui" || initiator == "ui_slow") && sc.Cfg.Protocol < 3 {
 					continue // the stop/continue question needs a pausable protocol
 				}
 				for _, dir := range []string{"c2s", "s2c"} {
@@ -284,6 +318,11 @@ func TestVF_C10(t *testing.T) {
 									m = ""
 								}
 							}
+							if m == "" && initiator == "ui_slow" && res.afterChoice > 0 {
+								// how long the user looked at the question must not matter for how promptly the stop takes effect: compare
+								// with the same stop chosen at once (both measured from the choice; load slows both alike)
+								m = vfC10SlowVsFast(cs, res.afterChoice)
+							}
 							vfC10Eval(c, cs, &res)
 							if m != "" {
 								c.violation("enumerated", cs, m)
@@ -298,6 +337,32 @@ func TestVF_C10(t *testing.T) {
 	}
 }
 
+
+// vfC10SlowVsFast re-runs a slow-user stop with an immediate choice and compares the time from the choice to the end of both sides.
+// A difference of more than 60 % of the hesitation must show twice.
+func vfC10SlowVsFast(cs vfC10Case, slow time.Duration) string {
+	limit := vfHesitation * 6 / 10
+	for attempt := 0; ; attempt++ {
+		fast := cs
+		fast.Initiator = "ui"
+		var fr vfC10Res
+		if m := vfGuard(func() string { return vfC10Run(fast, &fr) }); m != "" || fr.afterChoice <= 0 {
+			return "" // the immediate choice has its own verdict elsewhere in the enumeration
+		}
+		if slow-fr.afterChoice <= limit {
+			return ""
+		}
+		if attempt == 1 {
+			return fmt.Sprintf("after the user had looked at the stop question for %v both sides ended %v after the choice, but %v after an immediate choice at the same point (%+v): the time spent at the prompt delays the stop",
+				vfHesitation, slow.Round(time.Millisecond), fr.afterChoice.Round(time.Millisecond), cs.Ev)
+		}
+		var sr vfC10Res
+		if m := vfGuard(func() string { return vfC10Run(cs, &sr) }); m != "" || sr.afterChoice <= 0 {
+			return ""
+		}
+		slow = sr.afterChoice
+	}
+}
 
 // vfSitesInFunc lists the yield sites inside one function of an instrumented source file of the scratch copy.
 func vfSitesInFunc(file, funcHeader string) []string {
